@@ -73,7 +73,9 @@ pub fn check_program(prog: &Program) -> Check {
     Ok(out)
 }
 
-const MUT_NAMES: [&str; 8] = ["a", "b", "c", "", "a,b", "zz", "d", "e"];
+/// names used by the mutations: valid pool names, the empty string, a name with a comma, a name not
+/// in any model, and near misses of "a" (case, surrounding blank, prefix) that must count as different names
+const MUT_NAMES: [&str; 12] = ["a", "b", "c", "", "a,b", "zz", "d", "e", "A", " a", "a ", "ab"];
 
 fn mutate(prog: &mut Program, sel: u16, a: u16, b: u16) {
     let n = prog.calls.len();
@@ -173,17 +175,17 @@ fn random_program(us: &[u16]) -> Program {
         i += 1;
         v
     };
-    let names = ["a", "b", "c", "", "a,b"];
-    let model: Vec<String> = (0..pick(next(), 4)).map(|_| names[pick(next(), 5)].to_string()).collect();
+    let names = ["a", "b", "c", "", "a,b", "A", "a ", "ab"];
+    let model: Vec<String> = (0..pick(next(), 4)).map(|_| names[pick(next(), 8)].to_string()).collect();
     let len = pick(next(), 15);
     let mut calls = vec![];
     for _ in 0..len {
         let c = match pick(next(), 8) {
             0 | 1 => {
                 let l = pick(next(), 4);
-                Call::Function { names: (0..l).map(|_| names[pick(next(), 5)].to_string()).collect(), form: Form { tag: 1, q: vec![1; 1 + pick(next(), 3)] } }
+                Call::Function { names: (0..l).map(|_| names[pick(next(), 8)].to_string()).collect(), form: Form { tag: 1, q: vec![1; 1 + pick(next(), 3)] } }
             }
-            2..=4 => Call::Deriv { name: names[pick(next(), 5)].to_string(), form: Form { tag: 2, q: vec![1; 1 + pick(next(), 3)] } },
+            2..=4 => Call::Deriv { name: names[pick(next(), 8)].to_string(), form: Form { tag: 2, q: vec![1; 1 + pick(next(), 3)] } },
             5 => Call::Invariant { tag: 4 },
             6 => Call::X(1 + pick(next(), 3)),
             _ => Call::Init(vec![1; pick(next(), 4)]),
@@ -245,7 +247,7 @@ impl Property for C15 {
         "C15"
     }
     fn rule(&self) -> String {
-        "builder call programs from three sources: (i) a generated valid program (1..10 parameters, arities 1..10) mutated 0..3 times (drop / duplicate / swap / retarget a call, change an arity, a name list, the model names, the initial-guess length, insert stray calls), (ii) uniformly random programs of length <= 14 over the names {a,b,c,\"\",\"a,b\"}, (iii) bounded-exhaustive enumeration of all programs up to length 3 (quick) / 4 (thorough) over a 25-token alphabet and four model-name lists. Oracle: an independent declarative specification computes the set D of defects present in the call sequence; build() is Ok iff D is empty, on Err the error kind is in D, on Ok the model has the declared parameter/function counts; every prefix is checked the same way and a recorded (monotone) defect of a prefix must keep the whole program failing. Non-trivial: valid programs and programs with exactly one defect".into()
+        "builder call programs from three sources: (i) a generated valid program (1..10 parameters, arities 1..10) mutated 0..3 times (drop / duplicate / swap / retarget a call, change an arity, a name list, the model names, the initial-guess length, insert stray calls), (ii) uniformly random programs of length <= 14 over the names {a,b,c,\"\",\"a,b\",A,\"a \",ab}, (iii) bounded-exhaustive enumeration of all programs up to length 3 (quick) / 4 (thorough) over a 25-token alphabet and four model-name lists. Oracle: an independent declarative specification computes the set D of defects present in the call sequence; build() is Ok iff D is empty, on Err the error kind is in D, on Ok the model has the declared parameter/function counts; every prefix is checked the same way and a recorded (monotone) defect of a prefix must keep the whole program failing. Non-trivial: valid programs and programs with exactly one defect".into()
     }
     fn assumptions(&self) -> Vec<String> {
         vec!["'non-empty parameter names' is read as the *list* being non-empty (as documented at SeparableModelBuilder::new); the empty string is a legal name".into(), "D is computed leniently (a superset as soon as one defect is present); D = {} is exact".into()]
